@@ -752,6 +752,7 @@ var ruleRegexFlags = &Rule{
 		out.Floors["flag_sets"] = 32
 		// same pattern / flags validated, stored and compiled
 		p.regexSameInputs(out, flagsT)
+		p.regexAlwaysValidated(out, validator)
 		return out
 	},
 }
@@ -813,6 +814,108 @@ func isEmptyStringConst(r *PathRow) bool {
 
 // regexSameInputs: the constructor validates exactly the pattern and flags it
 // stores, and the compiler reads exactly those fields.
+// regexAlwaysValidated: every success return of the constructor that calls
+// the validator is reached through that call — no path hands out a node whose
+// pattern the validator has not seen.
+func (p *Prog) regexAlwaysValidated(out *RuleOut, _ *ssa.Function) {
+	// the validator: the function of package ast that hands a pattern to
+	// regexp/syntax.Parse
+	var validator *ssa.Function
+	for _, fn := range p.astFuncsSorted() {
+		for _, c := range p.allCalls(fn) {
+			if calleeQualified(&c.Call) == "regexp/syntax.Parse" {
+				validator = fn
+			}
+		}
+	}
+	if validator == nil {
+		out.undecided("pattern validator", "-", "", "anchor unresolved: no function of package ast calls regexp/syntax.Parse")
+		return
+	}
+	n := 0
+	defer func() {
+		if n == 0 {
+			out.viol("a constructor validates the pattern", p.pos(validator.Pos()), fnName(validator), "no constructor returning (node, error) calls "+validator.Name())
+		}
+	}()
+	for _, fn := range p.astFuncsSorted() {
+		calls := callsTo(fn, validator)
+		if len(calls) == 0 || fn == validator || !lastIsError(fn.Signature) {
+			continue
+		}
+		n++
+		key := fnName(fn) + ": every node it returns has been validated"
+		bad := ""
+		for _, r := range expandedReturns(fn) {
+			if !isNilConst(stripConv(r.Results[len(r.Results)-1])) {
+				continue
+			}
+			if isNilConst(stripConv(r.Results[0])) {
+				continue
+			}
+			// some call of the validator dominates the return, or the return is
+			// behind `err == nil` for an error merged from the validator's on
+			// every edge that can carry nil
+			// (`if err == nil { err = validate(…) }; if err != nil { return … }`)
+			covers := func(b *ssa.BasicBlock) bool {
+				for _, c := range calls {
+					if c.Block() == b || c.Block().Dominates(b) {
+						return true
+					}
+				}
+				return false
+			}
+			dominated := covers(r.Block)
+			for cur := r.Block; cur != nil && !dominated; cur = cur.Idom() {
+				for _, ins := range cur.Instrs {
+					ph, ok := ins.(*ssa.Phi)
+					if !ok {
+						break
+					}
+					if !isErrorType(ph.Type()) {
+						continue
+					}
+					if isNil, _ := nilFact(r.Facts, ph); !isNil {
+						continue
+					}
+					all := true
+					for i, pred := range cur.Preds {
+						efs := edgeFacts(pred, succIndex(pred, cur))
+						if _, nonNil := nilFact(efs, ph.Edges[i]); nonNil {
+							continue // this edge cannot carry a nil error
+						}
+						if !covers(pred) {
+							all = false
+						}
+					}
+					if all {
+						dominated = true
+					}
+				}
+			}
+			if !dominated && bad == "" {
+				bad = p.pos(r.Instr.Pos())
+			}
+		}
+		if bad == "" {
+			out.ok(key, p.pos(fn.Pos()), fnName(fn), "the call to "+validator.Name()+" dominates every success return")
+		} else {
+			out.viol(key, p.pos(fn.Pos()), fnName(fn), "the success return at "+bad+" can be reached without the pattern having been handed to "+validator.Name()+": a pattern Go's regexp rejects is accepted at parse time and panics in MustCompile when the path is executed")
+		}
+	}
+}
+
+func (p *Prog) astFuncsSorted() []*ssa.Function {
+	var fns []*ssa.Function
+	for fn := range p.AllFns {
+		if fnPkgPath(fn) == pkgAST && fn.Blocks != nil {
+			fns = append(fns, fn)
+		}
+	}
+	sortFuncs(fns)
+	return fns
+}
+
 func (p *Prog) regexSameInputs(out *RuleOut, flagsT *types.Named) {
 	ctor := p.ssaFunc(pkgAST, "NewRegex")
 	comp := p.ssaFunc(pkgAST, "*RegexNode.Regexp")
